@@ -34,6 +34,53 @@ theorem wrap_ws_only (o o' : Opts) (sql : Str) : stripWs (wrap o sql) = stripWs 
       simp [stripWs, isWs]
     rw [h1 o, h1 o']
 
+/-- `expressions(...)`: whatever the options (plain / pretty / leading_comma / dynamic + too_wide / new_line, any pad,
+    indent, max_text_width, skip flags), the output with whitespace stripped is the items with their prefix, separated
+    by the separator — so any two option sets differ only in whitespace.  Hypothesis: no item is the empty string
+    (`expressions` skips empty items but keeps their index, so with an empty FIRST item leading_comma emits a leading
+    separator and with an empty LAST item the other styles emit a trailing one — see the example below). -/
+theorem expressions_ws_only (o o' : Opts) (items : List Str) (hne : ∀ s ∈ items, s ≠ [])
+    (flat doIndent skipFirst skipLast : Bool) (sepS pre : Str) (dynamic newLine : Bool) :
+    stripWs (expressions o items flat doIndent skipFirst skipLast sepS pre dynamic newLine)
+      = stripWs (expressions o' items flat doIndent skipFirst skipLast sepS pre dynamic newLine) := by
+  cases items with
+  | nil => simp [expressions]
+  | cons x xs =>
+    cases flat with
+    | true => simp [expressions]
+    | false =>
+      rw [stripWs_expressions_nonflat o (x :: xs) hne (by simp), stripWs_expressions_nonflat o' (x :: xs) hne (by simp)]
+
+example : expressions ⟨true, 2, 2, 5, false⟩ ["a".toList, "b + 1".toList] false true false false ", ".toList [] true false
+    = "  a,\n  b + 1".toList := by decide +kernel
+
+/-- the hypothesis of `expressions_ws_only` is needed: with an empty first item the leading-comma style differs from
+    the plain one in a non-whitespace character -/
+theorem expressions_empty_item_witness :
+    expressions ⟨true, 0, 0, 80, true⟩ [[], ['a']] false false false false [','] [] false false = [',', 'a'] ∧
+    expressions ⟨false, 0, 0, 80, false⟩ [[], ['a']] false false false false [','] [] false false = ['a'] := by
+  decide +kernel
+
+/-- whatever reaches the end of `generate()` under pretty=True, the returned text contains no occurrence of the
+    sentinel (no suffix of the output starts with it) -/
+theorem sentinel_absent_in_output (o : Opts) (hp : o.pretty = true) (sql : Str) (k : Nat) :
+    isPrefix SENTINEL ((finish o sql).drop k) = false := by
+  simp only [finish, hp, if_true, replace]
+  exact no_sentinel_after_replace _ _ (Nat.le_refl _) k
+
+/-- Doc view of the modelled printer (C01 `gen`): render every soft break `sp` as ANY whitespace string (space, or
+    newline + indentation of any width, chosen per position): the text without whitespace is the same — pretty and
+    plain renderings of a Doc differ only in whitespace, for unbounded pad / indent / width -/
+theorem doc_render_ws_only (tbl : SqlglotModel.Expr.Tables) (ws ws' : Nat → Str)
+    (h : ∀ i, stripWs (ws i) = []) (h' : ∀ i, stripWs (ws' i) = []) (ps : List SqlglotModel.Gen.Piece) (i j : Nat) :
+    stripWs (renderDoc tbl ws i ps) = stripWs (renderDoc tbl ws' j ps) := by
+  induction ps generalizing i j with
+  | nil => rfl
+  | cons p ps ih =>
+    cases p with
+    | t k => simp only [renderDoc, stripWs_append]; rw [ih (i + 1) (j + 1)]
+    | sp => simp only [renderDoc, stripWs_append, h, h']; exact congrArg _ (ih (i + 1) (j + 1))
+
 /-- the sentinel round trip is the identity on texts without an underscore (a sufficient condition: no character of
     the text can take part in an occurrence of the sentinel) -/
 theorem sentinel_roundtrip (s : Str) (hs : '_' ∉ s) :
